@@ -442,8 +442,49 @@ class Builder:
     def subscript_raises(self, n: Node, sub: ast.Subscript) -> List[Tuple[str, ExcTok]]:
         t = self.sc.ty(sub.value)
         if t is not None and t.head == "dict":
+            if self._key_known_present(sub.value, sub.slice):
+                return []
             return [("x", (KEYERROR, True))]
         return []
+
+    def _key_known_present(self, container: ast.AST, key: ast.AST, _depth: int = 0, _visiting: Optional[Set[str]] = None) -> bool:
+        """`for k in D: ... D[k]` and `for k in L: del D[k]` where L only collects such k: the key is one of D's own."""
+        if not isinstance(key, ast.Name) or _depth > 3:
+            return False
+        _visiting = _visiting or set()
+        ctxt = ast.unparse(container)
+        for how in self.sc.defs.get(key.id, []):
+            if how[0] != "iter":
+                return False
+            it = how[1]
+            base = it
+            while isinstance(base, ast.Call) and isinstance(base.func, ast.Name) and base.func.id in ("list", "tuple", "sorted", "set", "iter") and len(base.args) == 1:
+                base = base.args[0]
+            if isinstance(base, ast.Call) and isinstance(base.func, ast.Attribute) and base.func.attr == "keys" and not base.args:
+                base = base.func.value
+            if ast.unparse(base) == ctxt:
+                continue
+            if isinstance(base, ast.Name) and base.id in _visiting:
+                continue
+            if isinstance(base, ast.Name) and base.id in self.sc.defs and base.id not in self.sc.params:
+                # a local list fed only by append(<key of the same container>)
+                _visiting = _visiting | {base.id}
+                ok = True
+                found = False
+                for node in self.sc._own_nodes():
+                    if isinstance(node, ast.Call) and isinstance(node.func, ast.Attribute) and isinstance(node.func.value, ast.Name) and node.func.value.id == base.id:
+                        if node.func.attr == "append" and len(node.args) == 1 and self._key_known_present(container, node.args[0], _depth + 1, _visiting):
+                            found = True
+                        elif node.func.attr in ("append", "extend", "insert", "add", "update"):
+                            ok = False
+                for h2 in self.sc.defs[base.id]:
+                    v = h2[1] if h2[0] == "assign" else None
+                    if not (isinstance(v, (ast.List, ast.Set)) and not v.elts or (isinstance(v, ast.Call) and isinstance(v.func, ast.Name) and v.func.id in ("list", "set") and not v.args)):
+                        ok = False
+                if ok and found:
+                    continue
+            return False
+        return bool(self.sc.defs.get(key.id))
 
     # ------------------------------------------------------------ expressions
     def expr(self, e: Optional[ast.AST], k: Node, ctx: Ctx, stmt: ast.AST) -> Node:
@@ -642,7 +683,7 @@ class Builder:
             for t in st.targets:
                 if isinstance(t, ast.Subscript):
                     ty = self.sc.ty(t.value)
-                    if ty is not None and ty.head == "dict":
+                    if ty is not None and ty.head == "dict" and not self._key_known_present(t.value, t.slice):
                         toks.append(("x", (KEYERROR, True)))
             self.add_raises(n, ctx, toks)
             its: List[Item] = []
